@@ -65,6 +65,8 @@ def gen_case(rng):
     revised = rng.random() < 0.75
     peer_as = 65000 if ibgp else 65001
     present = [1, 2, 3] + ([5] if ibgp else []) + [t for t in (4, 6, 7, 8, 16, 32) if rng.random() < 0.4] + ([9, 10] if ibgp and rng.random() < 0.3 else [])
+    if rng.random() < 0.3:
+        rng.shuffle(present)        # the order of the attributes of an UPDATE is free (a malformed one may precede the mandatory ones)
     nfaults = rng.choice([0, 1, 1, 1, 2, 2, 3])
     faults = []
     used = set()
@@ -152,7 +154,16 @@ def model_line(c):
             fs.append("(%s)" % x[0])
         else:
             fs.append("(%s %s)" % (x[0], NAMES[x[1]]))
-    return "react %d (%s)" % (1 if c["revised"] else 0, " ".join(fs))
+    # the attribute types of the UPDATE in arrival order (as build() writes them)
+    missing = {x[1] for x in c["faults"] if x[0] == "missing"}
+    dup = {x[1] for x in c["faults"] if x[0] == "dup"}
+    names = []
+    for t in c["present"]:
+        if t not in missing:
+            names += [NAMES[t]] * (2 if t in dup else 1)
+    if any(x == ("mal", 14) for x in map(tuple, c["faults"])):
+        names.append(NAMES[14])
+    return "react %d (%s) (attrs %s)" % (1 if c["revised"] else 0, " ".join(fs), " ".join(names))
 
 
 def observe(c, out):
@@ -198,13 +209,31 @@ def norm_impl(c, out):
     if cls is None:
         return "error " + str(d)[:200]
     if cls == "installed":
-        # tell attribute-discard from untouched by the reaction class the faults ask for being visible in the attributes
-        return "installed"
+        # ... and which attribute types the installed route carries (LOCAL_PREF aside: the speaker adds its own)
+        return "installed " + " ".join(map(str, sorted(t for t in types_of(d["summary"]) if t != 5)))
     return cls
 
 
+TAGS = [("orig", 9), ("o", 1), ("p[", 2), ("nh", 3), ("med", 4), ("lp", 5), ("t6", 6), ("t7", 7), ("c[", 8), ("cl[", 10), ("ec[", 16), ("t32", 32)]
+TYPE_OF = {v: k for k, v in NAMES.items()}
+
+
+def types_of(summary):
+    ts = set()
+    for part in summary.split(";"):
+        for tag, t in TAGS:
+            if part.startswith(tag) and (tag not in ("o", "t6", "t7", "t32") or part[len(tag):].isdigit() or part == tag):
+                ts.add(t)
+                break
+    return ts
+
+
 def norm_model(c, out):
-    return "installed" if out in ("none", "discard") else out
+    f = out.split()
+    if f and f[0] in ("none", "discard"):
+        kept = {TYPE_OF[n] for n in f[2:] if n in TYPE_OF} if len(f) > 1 else set()
+        return "installed " + " ".join(map(str, sorted(t for t in kept if t != 5)))
+    return f[0] if f else out
 
 
 def oracle(c, out):
@@ -239,6 +268,14 @@ def oracle(c, out):
             tag = {6: "t6", 7: "t7"}[x[1]]
             if tag in a["other"]:
                 return ("malformed-attribute-kept", "installed route still carries attribute %d: %s" % (x[1], d["summary"]))
+    # attribute discard removes the malformed attribute and nothing else: what arrived well-formed is still there
+    faulted = {x[1] for x in c["faults"] if len(x) > 1}
+    parts = d["summary"].split(";")
+    WANT = {4: lambda: "med5" in parts, 6: lambda: "t6" in parts, 7: lambda: "t7" in parts, 8: lambda: "c[6553601]" in parts,
+            9: lambda: "orig9.9.9.9" in parts, 10: lambda: "cl[8.8.8.8]" in parts, 16: lambda: any(x.startswith("ec[") for x in parts), 32: lambda: "t32" in parts}
+    for t in c["present"]:
+        if t in WANT and t not in faulted and not WANT[t]():
+            return ("well-formed-attribute-dropped", "the UPDATE carried attribute %d well-formed (faults %s call for %s); the installed route lacks it: %s" % (t, c["faults"], want, d["summary"]))
     return None
 
 
